@@ -4,6 +4,7 @@ import (
 	"crypto/rand"
 	"crypto/x509"
 	"crypto/x509/pkix"
+	"encoding/asn1"
 	"encoding/hex"
 	"encoding/json"
 	"fmt"
@@ -154,6 +155,8 @@ type CRLSpec struct {
 	ThisUpdate time.Time
 	NextUpdate time.Time
 	Number     int64
+	// Reason, when non-zero, is the CRL entry reasonCode carried by every entry (RFC 5280, 5.3.1).
+	Reason int
 }
 
 // MakeCRL builds a DER CRL.
@@ -167,7 +170,11 @@ func MakeCRL(s CRLSpec) []byte {
 	}
 	var rev []pkix.RevokedCertificate
 	for _, sn := range s.Revoked {
-		rev = append(rev, pkix.RevokedCertificate{SerialNumber: sn, RevocationTime: T0.AddDate(0, -1, 0)})
+		e := pkix.RevokedCertificate{SerialNumber: sn, RevocationTime: T0.AddDate(0, -1, 0)}
+		if s.Reason != 0 {
+			e.Extensions = []pkix.Extension{{Id: asn1.ObjectIdentifier{2, 5, 29, 21}, Value: []byte{0x0a, 0x01, byte(s.Reason)}}}
+		}
+		rev = append(rev, e)
 	}
 	num := s.Number
 	if num == 0 {
